@@ -21,10 +21,11 @@ FEATURES = {
     "wgrid": ["lin", "log", "extrap", "disc"],
     "k": ["none", "lin", "log"],
     "g": [0, 1],
+    # "three": THREE stochastic states h (deps h,d), g (deps g), m (deps m), all with two labels
     # "h3": THREE labels, deps (h) (rows like (0.5, 0, 0.5) have a zero between positive entries)
     # "excl": deps (s, d) and a states-only filter excluding (s=2, h=1); e1.Built zeroes P(h'=1 | next_s = 2),
     # i.e. the excluded combination is a probability-zero node of the expectation
-    "h": ["none", "h", "hd", "dh", "ph", "s", "hg", "two", "restricted", "hp", "dph", "excl", "h3"],
+    "h": ["none", "h", "hd", "dh", "ph", "s", "hg", "two", "restricted", "hp", "dph", "excl", "h3", "three"],
     # "tight": c <= w - 0.2629, so the lowest wealth states have NO feasible choice (supported only for T=1,
     # where their value must be exactly -inf)
     "cons": ["c", "none", "disc", "period", "param", "aux", "tight"],
@@ -62,7 +63,7 @@ def enumerate_family(k, base=BASE, features=FEATURES):
 def normalise(fv):
     """Resolve dependent features; return new fv (canonical) or None if incompatible."""
     fv = dict(fv)
-    if fv["h"] == "hg" or fv["filt"] == "states" or fv["h"] == "two":
+    if fv["h"] == "hg" or fv["filt"] == "states" or fv["h"] in ("two", "three"):
         fv["g"] = 1
     if fv["cons"] == "disc":
         fv["e"] = 1
@@ -84,8 +85,9 @@ def normalise(fv):
 def make_source(fv):
     """Return (source_text, states(list of (name, gridexpr)), choices, function_names, params, meta)."""
     T = fv["T"]
-    has_c = fv["cc"] in ("c", "cl", "three")
-    has_l = fv["cc"] in ("cl", "three")
+    # "big" (enumerated explicitly by C02 only): two continuous choices with 200 x 170 grid points (> 2^15 combinations)
+    has_c = fv["cc"] in ("c", "cl", "three", "big")
+    has_l = fv["cc"] in ("cl", "three", "big")
     has_q = fv["cc"] == "three"
     has_e = bool(fv["e"])
     has_g = bool(fv["g"])
@@ -161,7 +163,9 @@ def make_source(fv):
 
     # ---------------- utility
     uargs = ["s", "w", "d"]
-    terms = [f"{ua} * 0.31 * d * (s + 1)", "- 0.052 * d"]
+    # the d*w interaction makes the restricted choice d attractive at low and unattractive at high wealth, so
+    # that some (off-grid) wealth levels are nearly indifferent between d = 0 and d = 1
+    terms = [f"{ua} * 0.31 * d * (s + 1)", "- 0.052 * d", "- 0.11 * d * w"]
     terms.append("+ 0.21 * w * (1 + 0.5 * s)" if wdisc else "+ 0.0137 * w * (1 + 0.5 * s)")
     if has_g:
         uargs.append("g")
@@ -169,6 +173,9 @@ def make_source(fv):
     if has_h:
         uargs.append("h")
         terms.append("+ 0.23 * h * (1 + d) - 0.11 * h * s")
+    if fv["h"] == "three":
+        uargs.append("m")
+        terms.append("+ 0.13 * m * (1 - d) + 0.037 * m * h - 0.029 * m * g")
     if fv["h"] == "two":
         pass  # g is the second stochastic state, already in utility
     if has_k:
@@ -289,7 +296,7 @@ def make_source(fv):
         L.append(f"def next_w({', '.join(wargs)}):\n    return {expr}")
     funcs.append("next_w")
     if has_g:
-        if fv["h"] == "two":
+        if fv["h"] in ("two", "three"):
             L.append("@lcm.mark.stochastic\ndef next_g(g):\n    pass")
         else:
             L.append("def next_g(g, d):\n    return jnp.where(d == 1, g, 1 - g)" if fv["filt"] != "states" else "def next_g(g):\n    return g")
@@ -302,7 +309,12 @@ def make_source(fv):
     hdeps = None
     if has_h:
         hdeps = {"h": ["h"], "hd": ["h", "d"], "dh": ["d", "h"], "ph": ["_period", "h"], "s": ["s"], "hp": ["h", "_period"], "dph": ["d", "_period", "h"], "excl": ["s", "d"], "h3": ["h"],
-                 "hg": ["h", "g"], "two": ["h", "d"], "restricted": ["h", "d"]}[fv["h"]]
+                 "hg": ["h", "g"], "two": ["h", "d"], "three": ["h", "d"], "restricted": ["h", "d"]}[fv["h"]]
+        if fv["h"] == "three":
+            # declared BEFORE next_h: function order (g, m, h) differs from state order (h, g, m)
+            L.append("@lcm.mark.stochastic\ndef next_m(m):\n    pass")
+            funcs.append("next_m")
+            P["next_m"] = {}
         L.append(f"@lcm.mark.stochastic\ndef next_h({', '.join(hdeps)}):\n    pass")
         funcs.append("next_h")
         P["next_h"] = {}
@@ -313,15 +325,17 @@ def make_source(fv):
         states.append(("h", "D(3)" if fv["h"] == "h3" else "D(2)"))  # h before g: declaration order != alphabetical order
     if has_g:
         states.append(("g", "D(2)"))
+    if fv["h"] == "three":
+        states.append(("m", "D(2)"))
     if has_k:
         states.append(("k", "Lin(0.5, 2.0, 3)" if fv["k"] == "lin" else "Log(0.5, 2.0, 4)"))
     choices = [("d", "D(2)")]
     if has_e:
         choices.append(("e", "D(3)"))
     if has_c:
-        choices.append(("c", "Lin(0.5, 3.0, 6)"))
+        choices.append(("c", "Lin(0.5, 3.0, 200)" if fv["cc"] == "big" else "Lin(0.5, 3.0, 6)"))
     if has_l:
-        choices.append(("b", "Lin(0.2, 1.2, 3)"))  # declared after c: declaration order != alphabetical
+        choices.append(("b", "Lin(0.2, 1.2, 170)" if fv["cc"] == "big" else "Lin(0.2, 1.2, 3)"))  # declared after c: declaration order != alphabetical
     if has_q:
         choices.insert(0, ("q", "Lin(0.0, 1.0, 2)"))
     if fv["order"] == "srev":
@@ -335,8 +349,10 @@ def make_source(fv):
     allv = dict(states + choices)
     if has_h:
         shocks["h"] = [T if d_ == "_period" else sizes[allv[d_]] for d_ in hdeps] + [3 if fv["h"] == "h3" else 2]
-    if fv["h"] == "two":
+    if fv["h"] in ("two", "three"):
         shocks["g"] = [2, 2]
+    if fv["h"] == "three":
+        shocks["m"] = [2, 2]
     src = "\n\n".join(L)
     return src, states, choices, funcs, P, shocks
 
